@@ -1,4 +1,4 @@
-from . import checks_tier, checks_tg, checks_file
+from . import checks_tier, checks_tg, checks_file, checks_audio
 
 CHECKS = {}
 for _p in checks_tier.PROPS:
@@ -8,4 +8,7 @@ CHECKS["C02"] = checks_file.check_c02
 CHECKS["C04"] = checks_file.check_c04
 CHECKS["C03"] = checks_file.check_c03
 CHECKS["C01"] = checks_file.check_c01
+CHECKS["C16"] = checks_audio.check_c16
+CHECKS["C17"] = checks_audio.check_c17
+CHECKS["C18"] = checks_audio.check_c18
 REPLAYERS = {}
